@@ -5,19 +5,51 @@ import CirqVerif.Model.C12
 namespace CirqVerif.C12
 
 /-- the scoping pass neither drops, duplicates nor reorders operations, and leaves qubits alone -/
-theorem C12_scopePass_structure (measured : List Key) (ops : List RawOp) :
-    (scopePass measured ops).map (fun o => (o.id, o.qubits, o.inverted))
+theorem C12_scopePass_structure (measured : List (Key × List (List Nat × Nat))) (ops : List RawOp) :
+    (scopePassS measured ops).map (fun o => (o.id, o.qubits, o.inverted))
       = ops.map (fun o => (o.id, o.qubits, o.inverted)) := by
   induction ops generalizing measured with
   | nil => rfl
-  | cons o os ih => simp [scopePass, ih]
+  | cons o os ih => simp [scopePassS, ih]
 
 /-- every measurement key of the unrolled form is the written key prefixed by the scopes it sits in -/
-theorem C12_scopePass_mkeys (measured : List Key) (ops : List RawOp) :
-    (scopePass measured ops).map (·.mkey) = ops.map (fun o => o.mkey.map (fun k => k.prefixed o.scope)) := by
+theorem C12_scopePass_mkeys (measured : List (Key × List (List Nat × Nat))) (ops : List RawOp) :
+    (scopePassS measured ops).map (·.mkey) = ops.map (fun o => o.mkey.map (fun k => k.prefixed o.scope)) := by
   induction ops generalizing measured with
   | nil => rfl
-  | cons o os ih => simp [scopePass, ih]
+  | cons o os ih => simp [scopePassS, ih]
+
+/-- without sub-circuits (no instance stamps anywhere) lexical binding is binding against everything recorded so far -/
+theorem C12_flat_is_dynamic (measured : List Key) (ops : List RawOp) (h : ∀ o ∈ ops, o.stamps = []) :
+    scopePassS (measured.map (fun k => (k, []))) ops = scopePass measured ops := by
+  induction ops generalizing measured with
+  | nil => rfl
+  | cons o os ih =>
+    have ho : o.stamps = [] := h o (by simp)
+    have hos : ∀ o' ∈ os, o'.stamps = [] := fun o' ho' => h o' (by simp [ho'])
+    have hvis : ((measured.map (fun k => (k, ([] : List (List Nat × Nat))))).filter
+        (fun m => visible m.2 o.stamps)).map (·.1) = measured := by
+      rw [ho]
+      simp [visible, List.filter_eq_self.mpr, Function.comp_def]
+    simp only [scopePassS, scopePass, hvis]
+    congr 1
+    have := ih (measured ++ (o.mkey.map (fun k => k.prefixed o.scope)).toList) hos
+    rw [← this, ho]
+    simp
+
+/-- a measurement made inside a sibling sub-circuit instance, or in another iteration of an enclosing loop, is not a
+binding candidate: its instance chain is not a prefix of the condition's -/
+theorem C12_sibling_not_visible (common : List (List Nat × Nat)) (a b : List Nat × Nat) (ra rb : List (List Nat × Nat))
+    (h : a ≠ b) : visible (common ++ a :: ra) (common ++ b :: rb) = false := by
+  induction common with
+  | nil => simp [visible, List.isPrefixOf, h]
+  | cons c cs ih => simpa [visible, List.isPrefixOf] using ih
+
+/-- measurements directly in the body of an enclosing instance (or at top level) are candidates -/
+theorem C12_enclosing_visible (outer inner : List (List Nat × Nat)) : visible outer (outer ++ inner) = true := by
+  induction outer with
+  | nil => simp [visible, List.isPrefixOf]
+  | cons c cs ih => simpa [visible, List.isPrefixOf] using ih
 
 /-- **A condition refers to the measurement it is scoped to**: if the key has been measured in the innermost
 enclosing scope, the condition binds to that measurement … -/
@@ -52,22 +84,24 @@ theorem C12_bind_external (scope : List String) (measured : List Key) (k : Key)
 
 /-- zero repetitions unroll to nothing; the unrolled body is repeated |repetitions| times otherwise
 (here: without repetition ids) -/
-theorem C12_reps_zero (fuel : Nat) (body : List (List Node)) (qmap : List (Nat × Nat)) (kmap : List (String × String))
+theorem C12_reps_zero (fuel : Nat) (pos : List Nat) (body : List (List Node)) (qmap : List (Nat × Nat)) (kmap : List (String × String))
     (repIds : Option (List String)) (pp : List String) :
-    rawCO (fuel + 1) (.mk body 0 qmap kmap repIds pp) = [] := by
+    rawCO (fuel + 1) pos (.mk body 0 qmap kmap repIds pp) = [] := by
   simp [rawCO]
 
-theorem C12_reps_length (fuel : Nat) (body : List (List Node)) (reps : Int) (hr : reps ≠ 0)
+theorem C12_reps_length (fuel : Nat) (pos : List Nat) (body : List (List Node)) (reps : Int) (hr : reps ≠ 0)
     (qmap : List (Nat × Nat)) (kmap : List (String × String)) (pp : List String) :
-    (rawCO (fuel + 1) (.mk body reps qmap kmap none pp)).length
-      = reps.natAbs * (body.flatten.flatMap (rawNode fuel)).length := by
-  have hrep : ∀ (n : Nat) (l : List RawOp), (List.replicate n l).flatten.length = n * l.length := by
-    intro n l
+    (rawCO (fuel + 1) pos (.mk body reps qmap kmap none pp)).length
+      = reps.natAbs * ((body.flatten.zipIdx).flatMap (fun (n, i) => rawNode fuel (pos ++ [i]) n)).length := by
+  have hrep : ∀ (n : Nat) (f : Nat → List RawOp) (len : Nat), (∀ k, (f k).length = len) →
+      ((List.range n).flatMap f).length = n * len := by
+    intro n f len hf
     induction n with
     | zero => simp
-    | succ n ih => simp [List.replicate_succ, ih, Nat.succ_mul]; omega
+    | succ n ih => rw [List.range_succ, List.flatMap_append]; simp [ih, hf, Nat.succ_mul]
   simp only [rawCO, hr, if_false]
-  rw [hrep]
+  rw [hrep _ _ ((body.flatten.zipIdx).flatMap (fun (n, i) => rawNode fuel (pos ++ [i]) n)).length]
+  intro k
   split <;> simp
 
 /-- qubit maps compose: mapping with `m₁` and then with `m₂` is mapping once with the composition -/
